@@ -3,7 +3,6 @@ import MythVerif.Proofs.WsQueueTsoTac
 namespace MythVerif.WsqTso
 open MythVerif.Wsq
 
-set_option maxHeartbeats 4000000 in
 theorem t_tpl (s s' : St) (p : Pid) (e) : Inv s → s.tpc p = .tpl e → stepT s p = some s' → Inv s' := by
   intro h heq hs
   have hb := h.tbufE p (by simp [heq, mayBuf])
@@ -15,7 +14,6 @@ theorem t_tpl (s s' : St) (p : Pid) (e) : Inv s → s.tpc p = .tpl e → stepT s
   · simp at hs; subst hs
     tso_fastT h p []
 
-set_option maxHeartbeats 4000000 in
 theorem t_tp1 (s s' : St) (p : Pid) (e) : Inv s → s.tpc p = .tp1 e → stepT s p = some s' → Inv s' := by
   intro h heq hs
   have hb := h.tbufE p (by simp [heq, mayBuf])
@@ -24,7 +22,6 @@ theorem t_tp1 (s s' : St) (p : Pid) (e) : Inv s → s.tpc p = .tp1 e → stepT s
   all_goals (simp at hs; subst hs)
   all_goals tso_fastT h p []
 
-set_option maxHeartbeats 4000000 in
 theorem t_tp1b (s s' : St) (p : Pid) (e) : Inv s → s.tpc p = .tp1b e → stepT s p = some s' → Inv s' := by
   intro h heq hs
   have hb := h.tbufE p (by simp [heq, mayBuf])
